@@ -198,9 +198,15 @@ func NewFont(ld *ot.Loader) (*Font, error) {
 
 	// 'cmap' handling depend on os2
 	raw, _ := ld.RawTable(ot.MustNewTag("OS/2"))
-	os2, _, _ := tables.ParseOs2(raw)
+	os2, _, errOs2 := tables.ParseOs2(raw)
 	fontPage := os2.FontPage()
 	out.os2, _ = newOs2(os2)
+	// keep [Font.Describe] consistent with [Describe] : the description
+	// uses 'OS/2' if and only if the table is present and valid
+	out.os2.os2Desc = nil
+	if errOs2 == nil {
+		out.os2.os2Desc = newOS2Desc(os2)
+	}
 
 	raw, err = ld.RawTable(ot.MustNewTag("cmap"))
 	if err != nil {
